@@ -88,7 +88,7 @@ def patPropose (cfg : PatCfg) (s : PatSt) : Except Err (Pos × List Pos × Tape)
         | .ok a =>
           if a.1 then .ok (p, ps, a.2)
           else
-            match moveClimb cfg.geo (some p) (some 1) a.2 with
+            match moveClimb cfg.geo (some p) (some 1) s.tape.length a.2 with
             | .error e => .error e
             | .ok b => .ok (b.1, ps, b.2)
   | [] => .error .needMore
